@@ -11,6 +11,7 @@ import Gengo.Driver.SetGen
 import Gengo.Driver.Assemble
 import Gengo.Driver.RawNamer
 import Gengo.Driver.Flatten
+import Gengo.Driver.Universe
 open Gengo Gengo.Proto
 
 /-- state of the stateful components (one history at a time per component) -/
@@ -20,6 +21,7 @@ structure DState where
   ex : Driver.Exec.St := {}
   ib : Driver.ImportBoss.St := {}
   set : Driver.SetGen.St := {}
+  uni : Driver.Universe.St := {}
 
 def dispatch (s : DState) (f : List Str) : DState × Str :=
   match f with
@@ -34,6 +36,9 @@ def dispatch (s : DState) (f : List Str) : DState × Str :=
     else if c = str "trk" then
       let (t, o) := Driver.Tracker.handle s.trk rest
       ({ s with trk := t }, o)
+    else if c = str "uni" then
+      let (t, o) := Driver.Universe.handle s.uni rest
+      ({ s with uni := t }, o)
     else if c = str "set" then
       let (t, o) := Driver.SetGen.handle s.set rest
       ({ s with set := t }, o)
